@@ -1479,6 +1479,8 @@ func FunExpr(query *Query, current Map, expr *sqlparser.FuncExpr, opts ...ExprOp
 				err = e
 				return e
 			}
+			// an ASYNC call among the arguments has only been started just now
+			query.wg.Wait()
 			rs = slice[0]
 			return nil
 		})
@@ -1999,8 +2001,9 @@ func (query *Query) execAndPostProcess() (result any, err error) {
 	}
 	query.wg.Wait()
 	verifPoint("exec.afterWait")
-	for _, postProcessor := range query.postProcessors {
-		err := postProcessor()
+	// by index: a post-processor (AWAIT) may register further ones
+	for i := 0; i < len(query.postProcessors); i++ {
+		err := query.postProcessors[i]()
 		if err != nil {
 			return nil, err
 		}
